@@ -251,6 +251,20 @@ pub fn run(ctx: &Ctx) {
         let n = base.wire.len();
         // two shards spend part of their budget on long pauses (one variant per conversation in
         // the quick tier, up to four in the thorough one)
+        // two more shards put their long pause between the end of the request line and the end of
+        // the first head (a slow client that is slow while the header lines are being read)
+        if ctx.shard % 8 == 3 && long_pauses_done < if ctx.thorough { 24 } else { 1 } {
+            let line_end = base.wire.windows(2).position(|w| w == b"\r\n").map(|p| p + 2);
+            let head_end = base.wire.windows(4).position(|w| w == b"\r\n\r\n").map(|p| p + 2);
+            if let (Some(le), Some(he)) = (line_end, head_end) {
+                if he > le + 2 && he < n {
+                    let at = rng.range(le + 1, he - 1);
+                    run_long_pause(ctx, &env, &prop, cseed, &base, &bc, at);
+                    long_pauses_done += 1;
+                    ctx.rep.inc("long_pause_inside_header_block");
+                }
+            }
+        }
         if ctx.shard % 8 == 5 && n > 2 && long_pauses_done < if ctx.thorough { 24 } else { 1 } {
             for vi in 0..(if ctx.thorough { 4 } else { 1 }) {
                 // the first one inside the first head (whatever the conversation, the server is
